@@ -276,6 +276,12 @@ func (p *Prog) runProperty(prop, tier string, timeout int) *checkRun {
 	// relational encode/decode contracts (wire.go)
 	if hasProp(p.wireProps, prop) {
 		for _, r := range p.wireResults(filepath.Join(dir, "wire")) {
+			if only := p.wireTypes[prop]; only != nil && !only[strings.TrimSuffix(r.Ob.Func, ".encode")] {
+				continue
+			}
+			if cl := p.wireClauses[prop]; cl != nil && !cl[r.Ob.Label] {
+				continue
+			}
 			run.results = append(run.results, r)
 			run.solverTime += r.TimeS
 			if r.Status == "unsat" && r.Ob.Kind == "wire-dual" {
@@ -358,7 +364,7 @@ func cmdBaseline(args []string) {
 		for _, e := range run.lowerErrs {
 			fmt.Println("  error:", e)
 		}
-		if hasProp(p.wireProps, prop) {
+		if only, has := p.wireTypes[prop]; has && only == nil && p.wireClauses[prop] == nil {
 			b.WireReplay = p.wireReplayBaseline()
 			fmt.Printf("%s: round-trip replay harness passes for %d (type, version) cases\n", prop, len(b.WireReplay))
 		}
@@ -476,8 +482,14 @@ func cmdCheck(args []string) {
 		unclaimed = append(unclaimed, r.Ob.Name+" ("+r.Status+")")
 	}
 	// claimed contract clauses that were not regenerated although their function exists
+	regeneratedBase := map[string]bool{}
+	for n := range regenerated {
+		regeneratedBase[clauseBase(n)] = true
+	}
 	for n := range claimed {
-		if regenerated[n] {
+		// the instance suffixes (#k: k-th return or call site, @eK: loop edge) depend on the shape of the function;
+		// a clause counts as regenerated when any instance of it was
+		if regenerated[n] || regeneratedBase[clauseBase(n)] {
 			continue
 		}
 		parts := strings.SplitN(n, "/", 3)
